@@ -22,11 +22,22 @@ import gen
 import zckref
 
 
-def expected_fetch(pB, B, pA, T_init):
-    """Chunks of B (numbers) that must be fetched: not valid in the initial target and not present in A."""
+def expected_fetch(pB, B, pA, T_init, A=None):
+    """Chunks of B (numbers) that must be fetched: not valid in the initial target and not obtainable from A.
+    A chunk is obtainable from A only if A's index lists an equal (checksum, stored size, size) AND the bytes at that
+    place in A are really there and hash to it (a truncated or damaged A is only a partial source).  The copy uses the
+    FIRST entry with that checksum (hash-table lookup), so that is the one whose bytes count."""
     have = set()
     if pA is not None and pA.chunk_hash_type == pB.chunk_hash_type:
+        seen = set()
         for c in pA.chunks:
+            if c["digest"] in seen:
+                continue
+            seen.add(c["digest"])
+            if A is not None and c["comp_len"]:
+                a = pA.header_len + c["start"]
+                if a + c["comp_len"] > len(A) or zckref.H(pA.chunk_hash_type, A[a:a + c["comp_len"]]) != c["digest"]:
+                    continue
             have.add((c["digest"], c["comp_len"], c["len"]))
     E = []
     copied = []
@@ -123,7 +134,7 @@ def real_worker(case):
         tag = "real:%s:%s" % (case["akind"], case["tkind"])
         cs = core.crash_signatures(r, where="tool:zckdl")
         viol = None
-        E, copied, already = expected_fetch(pB, B, pA, T if T is not None else b"")
+        E, copied, already = expected_fetch(pB, B, pA, T if T is not None else b"", A)
         if cs:
             viol = (cs[0], "zckdl crashed: %s" % cs)
         elif r.rc != 0:
@@ -199,7 +210,7 @@ def worker(case):
         viol = None
         T_init = T if T is not None else b""
         # the header download overwrites the first header_len bytes; extents lie behind it
-        E, copied, already = expected_fetch(pB, B, pA, T_init)
+        E, copied, already = expected_fetch(pB, B, pA, T_init, A)
         if cs:
             viol = (cs[0], "crash/hang in update: %s" % cs)
         else:
@@ -302,9 +313,10 @@ class C04(core.Check):
             pieces = [gen.content(r.choice(["random", "text"]), r.randrange(1, r.choice([30, 400, 3000])), r.random()) for _ in range(n)]
             db = r.randbytes(r.choice([0, 0, 40, 600]))
             cht = r.randrange(4)
-            akind = r.choice(["edit", "edit", "edit", "same", "unrelated", "absent", "other-dict", "other-hash", "other-comp", "other-comp", "superset"])
+            akind = r.choice(["edit", "edit", "edit", "same", "unrelated", "absent", "other-dict", "other-hash", "other-comp", "other-comp", "superset",
+                              "edit-truncated", "edit-truncated", "edit-damaged"])
             bp = pieces
-            if akind in ("edit", "other-dict", "other-hash", "other-comp"):
+            if akind in ("edit", "other-dict", "other-hash", "other-comp", "edit-truncated", "edit-damaged"):
                 ap = edit_pieces(r, pieces, "edit")
             elif akind == "same":
                 ap = list(pieces)
@@ -327,6 +339,16 @@ class C04(core.Check):
                                      dict_bytes=(db if akind != "other-dict" else r.randbytes(33)),
                                      chunk_hash_type=(cht if akind != "other-hash" else ((cht % 2) + 1 if unc else (cht + 1) % 4)), hash_type=r.randrange(4),
                                      uncomp=(unc if r.random() < 0.8 else not unc) and (cht in (1, 2) or akind == "other-hash"))
+            if A and akind == "edit-truncated":
+                pa_ = zckref.parse(A)
+                A = A[: r.choice([pa_.header_len, pa_.header_len + 1, r.randrange(pa_.header_len, len(A) + 1), pa_.header_len + (len(A) - pa_.header_len) * 6 // 10])]
+            if A and akind == "edit-damaged":
+                pa_ = zckref.parse(A)
+                d_ = bytearray(A)
+                for c_ in pa_.chunks:
+                    if c_["comp_len"] and r.random() < 0.4:
+                        d_[pa_.header_len + c_["start"] + r.randrange(c_["comp_len"])] ^= 0x10
+                A = bytes(d_)
             self._add(out, r, ctx, "p%d" % i, akind, A, B)
         # library-written pairs with automatic chunking (content-defined boundaries resynchronise after an edit)
         nlib = 3 if self.quick else 30
